@@ -434,7 +434,7 @@ func drawAliasCase(t *rapid.T) AliasCase {
 
 func TestPropAlias(t *testing.T) {
 	assumptions()
-	stats.Check(t, 40000, 2000000, func(rt *rapid.T) {
+	stats.Check(t, 30000, 2000000, func(rt *rapid.T) {
 		c := drawAliasCase(rt)
 		stats.Class("alias kind:" + c.Geoms[0].Kind)
 		if classifyAlias(c) {
